@@ -13,6 +13,8 @@ HIST = {"name": "hist", "corpus": True}
 HISTUC = {"name": "histuc", "corpus": True}
 RC = {"name": "rc", "corpus": True}
 HISTW = {"name": "histw", "corpus": True}
+# a second, independently seeded pass of the waiting-biased histories (rare estimate shapes are a matter of density)
+HISTW2 = {"name": "histw", "label": "gen2", "env": {"VERIF_SEED_ADD": "1"}}
 
 ENGINE_TXT = ("Engine theorems (NR.Props.EngineThms, generic in the cached values, the step function and the exact "
               "checks): a completing propagation pass establishes cache = forward propagation and every check on what "
@@ -189,7 +191,7 @@ PROPS = {
         },
         "lean_props": ["C09", "C09W", "C09G", "C01", "C01M"],
         "facts": ["CheckFacts"],
-        "streams": [HIST, HISTW],
+        "streams": [HIST, HISTW, HISTW2],
     },
     "C10": {
         "claim": {
